@@ -559,57 +559,7 @@ func checkC09(w *World, r *Report) {
 	// R8: the event stream calls Log() on every event before it forwards it: a Log that dereferences a *PID field that can
 	// be nil (a sender-less message, a nil target) panics inside the event stream, the event reaches nobody
 	r.Rule("C09.R8", "the Log methods of the events that report undeliverable messages use their *PID fields only through nil-safe methods or after a nil check", 1)
-	{
-		n := 0
-		for _, tn := range []string{"DeadLetterEvent", "EngineRemoteMissingEvent"} {
-			fn := w.Method("actor", tn, "Log")
-			if fn == nil {
-				continue
-			}
-			n++
-			g := w.FGI(fn)
-			ok := true
-			detail := ""
-			for i, in := range g.ins {
-				var recvV ssa.Value
-				var callee *ssa.Function
-				switch x := in.(type) {
-				case *ssa.Call:
-					if cal := x.Call.StaticCallee(); cal != nil && len(x.Call.Args) > 0 && cal.Signature.Recv() != nil {
-						recvV, callee = x.Call.Args[0], cal
-					}
-				case *ssa.FieldAddr:
-					recvV = x.X
-				}
-				if recvV == nil {
-					continue
-				}
-				pt, isPtr := recvV.Type().Underlying().(*types.Pointer)
-				if !isPtr {
-					continue
-				}
-				if nn, _ := pt.Elem().(*types.Named); nn == nil || nn.Obj().Name() != "PID" {
-					continue
-				}
-				if w.nonNilAt(g, i, recvV) {
-					continue
-				}
-				if callee != nil && w.derefsParam(callee, 0, 0, map[string]bool{}) == nil {
-					continue // a nil-safe method (generated getter)
-				}
-				ok = false
-				what := "field access"
-				if callee != nil {
-					what = fname(callee)
-				}
-				detail = w.pathOf(recvV) + " is used through " + what + " at " + w.pos(in.Pos()) + " without a nil check: an event about a message without sender (or with a nil target) panics in the event stream instead of reaching the subscribers"
-			}
-			r.Check(ok, "C09.R8", tn+".Log:nil-safe", tn+".Log tolerates nil Target / Sender", w.fnPos(fn), detail)
-		}
-		if n == 0 {
-			r.OK("C09.R8", "events:Log", "the undeliverable-message events have no Log method (nothing is dereferenced)", "-")
-		}
-	}
+	checkEventLogNilSafe(w, r, "C09.R8")
 	r.Rule("C09.R7", "the event reaches the subscribers through inbox rings whose element transfers are sound (C14.R2-R5); a stopping actor is unregistered before any user code runs, so a send that finds it gone dead-letters (C10.R6)", 8)
 	importRules(w, r, checkC14, "C14", "C09.R7", func(o *Obligation) bool {
 		return o.Rule == "C14.R2" || o.Rule == "C14.R3" || o.Rule == "C14.R4" || o.Rule == "C14.R5"
@@ -1543,6 +1493,28 @@ func checkC12(w *World, r *Report) {
 	importRules(w, r, checkC14, "C14", "C12.R5", func(o *Obligation) bool {
 		return o.Rule == "C14.R2" || o.Rule == "C14.R3" || o.Rule == "C14.R4" || o.Rule == "C14.R5"
 	})
+	r.Rule("C12.R7", "no event's Log method can panic in the event stream (the restarted stream would have lost every subscriber)", 1)
+	checkEventLogNilSafe(w, r, "C12.R7")
+	r.Rule("C12.R8", "package actor never subscribes or unsubscribes on an actor's behalf: a subscription ends only by the subscriber's own Unsubscribe", 1)
+	{
+		var callers []string
+		for _, fn := range w.Funcs {
+			if !w.isLib(fn) || fnPkgPath(fn) != modPath+"/actor" {
+				continue
+			}
+			for _, api := range []string{"Subscribe", "Unsubscribe"} {
+				m := w.Method("actor", "Engine", api)
+				if m == nil || fn == m {
+					continue
+				}
+				for _, ci := range w.callsIn(fn, EvCall(api, m)) {
+					callers = append(callers, fname(fn)+" calls "+api+" at "+w.pos(ci.Pos()))
+				}
+			}
+		}
+		r.Check(len(callers) == 0, "C12.R8", "actor:no-implicit-subscription-change", "nothing in package actor calls Engine.Subscribe / Engine.Unsubscribe", "-",
+			fmt.Sprintf("%v: an unsubscribe that the library issues for a PID (e.g. when an actor stops) is keyed by address and id and can remove the subscription of a successor spawned under the same id", callers))
+	}
 	r.Rule("C12.R6", "a duplicate spawn is detected in one critical section with the insert, so that every duplicate publishes ActorDuplicateIdEvent (C10.R2)", 4)
 	importRules(w, r, checkC10, "C10", "C12.R6", func(o *Obligation) bool { return o.Rule == "C10.R2" })
 	importRules(w, r, checkC01, "C01", "C12.R5", func(o *Obligation) bool { return o.Rule == "C01.R4" })
@@ -1657,4 +1629,59 @@ func checkC12(w *World, r *Report) {
 			}
 		}
 	}
+}
+
+// checkEventLogNilSafe: the event stream calls Log() on every event before it forwards it. A Log that dereferences a
+// *PID field that can be nil panics inside the event stream: the event reaches nobody and the restarted stream has
+// forgotten its subscribers.
+func checkEventLogNilSafe(w *World, r *Report, rule string) {
+		n := 0
+		for _, tn := range []string{"DeadLetterEvent", "EngineRemoteMissingEvent"} {
+			fn := w.Method("actor", tn, "Log")
+			if fn == nil {
+				continue
+			}
+			n++
+			g := w.FGI(fn)
+			ok := true
+			detail := ""
+			for i, in := range g.ins {
+				var recvV ssa.Value
+				var callee *ssa.Function
+				switch x := in.(type) {
+				case *ssa.Call:
+					if cal := x.Call.StaticCallee(); cal != nil && len(x.Call.Args) > 0 && cal.Signature.Recv() != nil {
+						recvV, callee = x.Call.Args[0], cal
+					}
+				case *ssa.FieldAddr:
+					recvV = x.X
+				}
+				if recvV == nil {
+					continue
+				}
+				pt, isPtr := recvV.Type().Underlying().(*types.Pointer)
+				if !isPtr {
+					continue
+				}
+				if nn, _ := pt.Elem().(*types.Named); nn == nil || nn.Obj().Name() != "PID" {
+					continue
+				}
+				if w.nonNilAt(g, i, recvV) {
+					continue
+				}
+				if callee != nil && w.derefsParam(callee, 0, 0, map[string]bool{}) == nil {
+					continue // a nil-safe method (generated getter)
+				}
+				ok = false
+				what := "field access"
+				if callee != nil {
+					what = fname(callee)
+				}
+				detail = w.pathOf(recvV) + " is used through " + what + " at " + w.pos(in.Pos()) + " without a nil check: an event about a message without sender (or with a nil target) panics in the event stream instead of reaching the subscribers"
+			}
+			r.Check(ok, rule, tn+".Log:nil-safe", tn+".Log tolerates nil Target / Sender", w.fnPos(fn), detail)
+		}
+		if n == 0 {
+			r.OK(rule, "events:Log", "the undeliverable-message events have no Log method (nothing is dereferenced)", "-")
+		}
 }
